@@ -350,7 +350,7 @@ def real_walk(ctx, depth, acc, apex, parallel, generic=False):
             ticket.value += 1
             t1 = ticket.value
         with open(os.path.join(d, "log-%d" % os.getpid()), "a") as f:
-            f.write("%d %d %d %d %d\n" % (pos.n, pos.x, pos.y, t0, t1))
+            f.write("%d %d %d %d %d %d\n" % (pos.n, pos.x, pos.y, t0, t1, os.getpid()))
     table = ops_table(ctx, depth, [(acc, apex)])
 
     def body():
@@ -373,15 +373,42 @@ def real_walk(ctx, depth, acc, apex, parallel, generic=False):
     ev = []
     for fn in os.listdir(d):
         for line in open(os.path.join(d, fn)):
-            n, x, y, t0, t1 = map(int, line.split())
-            ev.append((t0, "cb_start", (n, x, y)))
-            ev.append((t1, "cb_end", (n, x, y)))
+            n, x, y, t0, t1, pid = map(int, line.split())
+            ev.append((t0, "cb_start", (n, x, y), pid))
+            ev.append((t1, "cb_end", (n, x, y), pid))
     ev.sort()
-    log = [(tag, p, None) for _t, tag, p in ev]
+    log = [(tag, p, pid) for _t, tag, p, pid in ev]
     ctx.count()
     ctx.distinct(("real", depth, parallel, apex, tuple(sorted(acc))))
-    judge_walk(ctx, "real-process walk (%d workers) depth %d apex %s" % (parallel, depth, apex), table[0]["ops"], log, status, exc, alive,
-               {"depth": depth, "accept": sorted(acc), "apex": apex, "workers": parallel, "real_processes": True}, keyprefix="C01:walk-parallel-real")
+    bad = judge_walk(ctx, "real-process walk (%d workers) depth %d apex %s" % (parallel, depth, apex), table[0]["ops"], log, status, exc, alive,
+                     {"depth": depth, "accept": sorted(acc), "apex": apex, "workers": parallel, "real_processes": True}, keyprefix="C01:walk-parallel-real")
+    # code -> spec: the recorded trace must be a behaviour of WalkPar (TLC finds the silent steps in between)
+    if status == "returned" and not generic and len(log) <= 40:
+        pids = []
+        for _tag, _p, pid in log:
+            if pid not in pids:
+                pids.append(pid)
+        if len(pids) <= parallel:
+            trace = [[("s" if tag == "cb_start" else "e"), list(p), pids.index(pid) + 1] for tag, p, pid in log]
+            mod = tla.module("TraceConf", ["WalkParTrace"], [("ConfAccept", tla.lit({frozenset(acc)})), ("ConfApex", tla.lit({tuple(apex)})),
+                                                            ("ConfFaults", "{{}}"), ("TraceSeq", tla.lit(trace))])
+            cfg = ("SPECIFICATION TSpec\nCONSTANTS\n Depth = %d\n NW = %d\n Cap = %d\n AcceptSets <- ConfAccept\n Apexes <- ConfApex\n FaultSets <- ConfFaults\n"
+                   " Checked = TRUE\n Trace <- TraceSeq\nINVARIANT NotExplained\nINVARIANT OnlyOps\nINVARIANT ChildrenFirst\nINVARIANT AtMostOnce\nCHECK_DEADLOCK FALSE\n"
+                   % (depth, parallel, 2 * parallel))
+            r = ctx.tlc("TraceConf", extra={"TraceConf.tla": mod}, cfg_text=cfg, expect_violation=True, timeout=900, count=False)
+            if r.violated == "NotExplained":
+                ctx.trace_ok()
+                ctx.add_note("real_process_traces_accepted_by_tlc")
+                if not ctx.quick and len(trace) >= 4:
+                    # negative control: a corrupted recording (last completion moved to the front) must be rejected
+                    bad_trace = [trace[-1]] + trace[:-1]
+                    mod2 = mod.replace(tla.lit(trace), tla.lit(bad_trace))
+                    r2 = ctx.tlc("TraceConf", extra={"TraceConf.tla": mod2}, cfg_text=cfg, expect_violation=True, timeout=900, count=False)
+                    if r2.violated == "NotExplained":
+                        ctx.machinery("trace validation accepted a corrupted trace (binding is vacuous)")
+                    ctx.add_note("corrupted_traces_rejected_by_tlc")
+            elif not bad:
+                ctx.drift("real-process walk trace (%d events, %d workers) is not a behaviour of WalkPar according to TLC (%s)" % (len(trace), parallel, r.violated))
 
 
 def run(ctx):
